@@ -182,6 +182,18 @@ func verifyBJJSignatureProof(ctx context.Context, proof BJJSignatureProof2021,
 		return fmt.Errorf("invalid state formant: %v", err)
 	}
 
+	// the state must be the hash of the tree roots given with it, and the
+	// auth claim must be included in the claims tree
+	err = verifyIssuerState(proof.IssuerData.State)
+	if err != nil {
+		return err
+	}
+	err = verifyClaimInclusion(proof.IssuerData.MTP, authClaim,
+		proof.IssuerData.State.ClaimsTreeRoot)
+	if err != nil {
+		return errors.Wrap(err, "auth claim")
+	}
+
 	issuerDID.Query = fmt.Sprintf("state=%s", issuerStateHash.Hex())
 
 	didDoc, err := didResolver.Resolve(ctx, issuerDID)
@@ -294,6 +306,12 @@ func verifyIden3SparseMerkleTreeProof(ctx context.Context,
 		return fmt.Errorf("invalid state formant: %v", err)
 	}
 
+	// the state must be the hash of the tree roots given with it
+	err = verifyIssuerState(proof.IssuerData.State)
+	if err != nil {
+		return err
+	}
+
 	issuerDID.Query = fmt.Sprintf("state=%s", issuerStateHash.Hex())
 
 	didDoc, err := didResolver.Resolve(ctx, issuerDID)
@@ -355,6 +373,58 @@ func verifyIden3SparseMerkleTreeProof(ctx context.Context,
 		return errors.New("verifyIden3SparseMerkleTreeProof: root from proof not equal to issuer data claims tree root")
 	}
 
+	return nil
+}
+
+// verifyIssuerState checks that the issuer state value is the hash of the
+// claims, revocation and roots tree roots given with it (missing roots are
+// zero).
+func verifyIssuerState(state State) error {
+	ok, err := validateTreeState(TreeState{
+		State:              state.Value,
+		ClaimsTreeRoot:     state.ClaimsTreeRoot,
+		RevocationTreeRoot: state.RevocationTreeRoot,
+		RootOfRoots:        state.RootOfRoots,
+	})
+	if err != nil {
+		return err
+	}
+	if !ok {
+		return errors.New("issuer state does not match its tree roots")
+	}
+	return nil
+}
+
+// verifyClaimInclusion checks that mtp is a proof of existence that carries
+// the claim to the given claims tree root.
+func verifyClaimInclusion(mtp *merkletree.Proof, claim *core.Claim,
+	claimsTreeRoot *string) error {
+
+	if mtp == nil {
+		return errors.New("merkle tree proof is not set")
+	}
+	if claimsTreeRoot == nil {
+		return errors.New("issuer claims tree root is not set")
+	}
+	if !mtp.Existence {
+		return errors.New("merkle tree proof is not a proof of existence")
+	}
+
+	hi, hv, err := claim.HiHv()
+	if err != nil {
+		return err
+	}
+	rootFromProof, err := merkletree.RootFromProof(mtp, hi, hv)
+	if err != nil {
+		return err
+	}
+	root, err := merkletree.NewHashFromHex(*claimsTreeRoot)
+	if err != nil {
+		return fmt.Errorf("invalid state formant: %v", err)
+	}
+	if rootFromProof.BigInt().Cmp(root.BigInt()) != 0 {
+		return errors.New("root from proof not equal to issuer data claims tree root")
+	}
 	return nil
 }
 
